@@ -409,3 +409,57 @@ func (e *Env) Via(transport string, r Req) (*Resp, error) {
 	}
 	return e.Plain(r)
 }
+
+// Stream is an exchange whose body the caller reads at its own pace.
+type Stream struct {
+	Resp  *http.Response
+	T0    time.Time
+	conn  net.Conn
+	extra io.Closer
+}
+
+func (s *Stream) Close() {
+	s.conn.Close()
+	if s.extra != nil {
+		s.extra.Close()
+	}
+}
+
+// Open sends r over a fresh connection (plain) or a fresh tunnel and returns after the response
+// header has been read.
+func (e *Env) Open(transport string, r Req) (*Stream, error) {
+	if transport == "tunnel" {
+		t, err := e.Connect(r.Host)
+		if err != nil {
+			return nil, err
+		}
+		t.raw.SetDeadline(time.Now().Add(Timeout))
+		t0 := time.Now()
+		if _, err := t.tls.Write(r.bytes(false)); err != nil {
+			t.Close()
+			return nil, err
+		}
+		resp, err := http.ReadResponse(t.br, &http.Request{Method: r.Method})
+		if err != nil {
+			t.Close()
+			return nil, fmt.Errorf("%w: %v", ErrNoResponse, err)
+		}
+		return &Stream{Resp: resp, T0: t0, conn: t.raw, extra: t.tls}, nil
+	}
+	c, err := net.DialTimeout("tcp", e.Addr(), 5*time.Second)
+	if err != nil {
+		return nil, err
+	}
+	c.SetDeadline(time.Now().Add(Timeout))
+	t0 := time.Now()
+	if _, err := c.Write(r.bytes(true)); err != nil {
+		c.Close()
+		return nil, err
+	}
+	resp, err := http.ReadResponse(bufio.NewReader(c), &http.Request{Method: r.Method})
+	if err != nil {
+		c.Close()
+		return nil, fmt.Errorf("%w: %v", ErrNoResponse, err)
+	}
+	return &Stream{Resp: resp, T0: t0, conn: c}, nil
+}
